@@ -269,6 +269,94 @@ theorem lookupKids_good (key : Key) (cs : List Node) (h : wfKids cs = true) :
         exact ihcs.2 h2
 end
 
+/-- `a ≤ b < c → a < c` -/
+theorem klt_of_le_of_lt (a b c : Key) (h1 : kle a b = true) (h2 : klt b c = true) : klt a c = true := by
+  simp only [kle, Bool.not_eq_true'] at h1
+  cases hac : klt a c with
+  | true => rfl
+  | false =>
+    cases hca : klt c a with
+    | true => rw [klt_trans b c a h2 hca] at h1; cases h1
+    | false =>
+      have := klt_total a c hac hca
+      subst this
+      rw [h2] at h1; cases h1
+
+theorem pairwise_of_ascendingFrom : ∀ (a : Key) (l : List Key), ascendingFrom a l = true →
+    List.Pairwise (fun x y => klt x y = true) (a :: l)
+  | a, [], _ => by simp
+  | a, b :: tl, h => by
+    have hall := ascendingFrom_all a (b :: tl) h
+    simp only [ascendingFrom, Bool.and_eq_true] at h
+    exact List.pairwise_cons.mpr ⟨hall, pairwise_of_ascendingFrom b tl h.2⟩
+
+theorem pairwise_of_ascending (l : List Key) (h : ascending l = true) :
+    List.Pairwise (fun x y => klt x y = true) l := by
+  cases l with
+  | nil => simp
+  | cons a tl => exact pairwise_of_ascendingFrom a tl h
+
+/-- A key below a later sibling is greater than the upper limit of an earlier one. -/
+theorem later_gt (key : Key) (v : Int) (c : Node) (lo hi : Key) (hl : limitsOf c = some (lo, hi)) :
+    ∀ (cs : List Node), separated c cs = true → wfKids cs = true → (key, v) ∈ flattenKids cs →
+      klt hi key = true
+  | [], _, _, hm => by simp [flattenKids] at hm
+  | c' :: cs', hsep, hwf, hm => by
+    simp only [wfKids, Bool.and_eq_true] at hwf
+    obtain ⟨⟨hwc', _⟩, hwcs'⟩ := hwf
+    unfold separated at hsep
+    simp only [hl, List.all_cons, Bool.and_eq_true] at hsep
+    simp only [flattenKids, List.mem_append] at hm
+    rcases hm with hm | hm
+    · obtain ⟨lim', hl', hw'⟩ := wf_limits c' hwc'
+      obtain ⟨lo', hi'⟩ := lim'
+      have h1 : klt hi lo' = true := by simpa [hl'] using hsep.1
+      have hin := List.all_eq_true.mp hw' key (mem_keys hm)
+      simp only [Bool.and_eq_true] at hin
+      exact klt_of_lt_of_le hi lo' key h1 hin.1
+    · have hsep' : separated c cs' = true := by
+        unfold separated
+        simp only [hl]
+        exact hsep.2
+      exact later_gt key v c lo hi hl cs' hsep' hwcs' hm
+
+mutual
+theorem flatten_sorted (root : Bool) (n : Node) (h : wf root n = true) :
+    List.Pairwise (fun x y => klt x y = true) ((flatten n).map (·.1)) :=
+  match n with
+  | .node limits names kids => by
+    unfold wf at h
+    obtain ⟨_, _, hshape⟩ := and3 h
+    cases names with
+    | some ns =>
+      cases kids with
+      | cons c cs => simp at hshape
+      | nil =>
+        simp only [Bool.and_eq_true] at hshape
+        simpa [flatten, flattenKids] using pairwise_of_ascending _ hshape.1.1
+    | none =>
+      cases kids with
+      | nil => simp at hshape
+      | cons c cs => simpa [flatten] using flattenKids_sorted (c :: cs) hshape
+theorem flattenKids_sorted (cs : List Node) (h : wfKids cs = true) :
+    List.Pairwise (fun x y => klt x y = true) ((flattenKids cs).map (·.1)) :=
+  match cs with
+  | [] => by simp [flattenKids]
+  | c :: cs' => by
+    simp only [wfKids, Bool.and_eq_true] at h
+    obtain ⟨⟨hwc, hsep⟩, hwcs⟩ := h
+    simp only [flattenKids, List.map_append]
+    refine List.pairwise_append.mpr ⟨flatten_sorted false c hwc, flattenKids_sorted cs' hwcs, ?_⟩
+    intro a ha b hb
+    obtain ⟨lim, hl, hw⟩ := wf_limits c hwc
+    obtain ⟨lo, hi⟩ := lim
+    have hin := List.all_eq_true.mp hw a ha
+    simp only [Bool.and_eq_true] at hin
+    obtain ⟨p, hp, rfl⟩ := List.mem_map.mp hb
+    have hgt := later_gt p.1 p.2 c lo hi hl cs' hsep hwcs hp
+    exact klt_of_le_of_lt a hi p.1 hin.2 hgt
+end
+
 theorem mem_of_assoc {l : List (Key × Int)} {k : Key} {v : Int} (h : assoc l k = some v) : (k, v) ∈ l := by
   unfold assoc at h
   simp only [Option.map_eq_some_iff] at h
